@@ -134,7 +134,7 @@ func initSeg(salt uint64, base int32, n int) MemSeg {
 	return g
 }
 
-const memoryBytes = 16384
+const memoryBytes = 8192
 
 // generate draws the schedule of run index idx.
 func generate(seed uint64, idx int) *Scenario {
